@@ -325,7 +325,12 @@ def make_jnp():
   j.less_equal = lambda a, b: T.ew(lambda x, y: x <= y, a, b, cmp=True)
   j.greater_equal = lambda a, b: T.ew(lambda x, y: x >= y, a, b, cmp=True)
   j.floor = lambda x: T.ew(lambda v: v // 1 if not isinstance(v, (int, float)) else float(__import__("math").floor(v)), x)
-  j.swapaxes = lambda x, a, b: T.transpose(x, [b if i == a else a if i == b else i for i in range(T.asarray(x).ndim)])
+  def _swapaxes(x, a, b):
+    x = T.asarray(x)
+    a, b = T._norm_axis(a, x.ndim), T._norm_axis(b, x.ndim)
+    return T.transpose(x, [b if i == a else a if i == b else i for i in range(x.ndim)])
+
+  j.swapaxes = _swapaxes
   j.ravel = lambda x: T.reshape(x, (-1,))
   j.shape = lambda x: T.asarray(x).shape
   j.ndim = lambda x: T.asarray(x).ndim
@@ -342,8 +347,31 @@ def make_jnp():
   return j
 
 
+def _numpy_result(f):
+  """Results of numpy functions are NumPy values (not jax arrays).  Built from python scalars only they are float64
+  ('strong'): arithmetic between such a value and a restored float32 NumPy state leaf is carried out by NumPy in
+  float64, whereas the same expression on the jax array of an uninterrupted run is float32 (tensor.ew reports it)."""
+
+  def g(*a, **k):
+    r = f(*a, **k)
+    has_tensor = any(isinstance(x, Tensor) for x in pytree.flatten((a, k))[0])
+
+    def tag(l):
+      if isinstance(l, Tensor) and not has_tensor and l.dtype.kind == "f":
+        l2 = Tensor(l.shape, l.dtype, l._fn, dict(l.tags))
+        l2.tags["numpy_float64_value"] = getattr(f, "__name__", "np function")
+        return l2
+      return l
+
+    return pytree.tree_map(tag, r)
+
+  return g
+
+
 def make_np(jnp):
-  n = NS(**jnp.__dict__)
+  n = NS(**{k: (_numpy_result(v) if callable(v) and not isinstance(v, type) and not isinstance(v, T.DType) and k in (
+      "where", "array", "asarray", "sqrt", "maximum", "minimum", "full", "ones", "zeros", "power", "float64", "exp", "log",
+      "multiply", "add", "subtract", "divide", "abs", "square") else v) for k, v in jnp.__dict__.items()})
   n.random = NS(RandomState=_RandomState)
   n.round = lambda x: x if isinstance(x, (int, float)) else _round(x)
   n.sum = lambda x, *a, **k: T.rsum(x, *a, **k)
